@@ -224,6 +224,12 @@ def cases_C01(tier, seed):
             for a in ops:
                 for b in ops[::2]:
                     cases.append(with_tail(pre, [a, b]))
+    # `Extend<&T> for T: Copy` (bytes): every layout, every number of items up to twice the capacity
+    for n in ns_for(tier):
+        for st, sz in layouts(n):
+            pre = [f"case {n} b"] + ["write 1 0", "read 1"] * st + ([f"write {sz} 100"] if sz else [])
+            for m in range(0, 2 * n + 2):
+                cases.append(pre + [f"extend_ref {m} 200", "fill_buf", "len", f"read {n + 1}"])
     rng = random.Random(seed)
     nh = 20000 if tier == "thorough" else 400
     for k in range(nh):
@@ -466,7 +472,7 @@ def cases_C11(tier, seed):
 def cases_C12(tier, seed):
     cases = []
     for n in ns_for(tier, thorough=(0, 1, 2, 3, 4, 5)):
-        cases.append([f"case {n} t", "len", "boxed", "drop"])
+        cases.append([f"case {n} t", "len", "boxed", "default", "drop"])
         for m in range(0, min(2 * n + 2, 12)):
             cases.append([f"case {n} t", "from_array " + " ".join(str(10 + i) for i in range(m)), "len", "into_iter " + "F" * (n + 1), "drop"])
             cases.append([f"case {n} t", f"from_iter {m}", "len", "into_iter " + "B" * (n + 1), "drop"])
